@@ -91,6 +91,24 @@ def run(tier):
                             check.violation({"class": "trivia-makes-program-invalid" if r.get("nerr", 1) > 0 else "trivia-changes-structure",
                                              "recipe": rec, "msg": ((r.get("errs") or [{}])[0].get("msg") or "")[:50]},
                                             {"minimal": ts[0]["src"], "rendered": t["src"], "gap": v["layout"], "errors": r.get("errs")})
+    # the scanner reads  ';' white-space* '?>'  as one token, so SyntaxGen never puts a close tag right after a ';'; the gap between
+    # the two is exercised here: white space keeps the structure, and so must a comment
+    for ver in ("7.4", "5.6"):
+        for body in ("$a = 1;", "echo 1, 2;", "f();"):
+            base = "<?php %s?>x" % body
+            variants = [(name, "<?php " + body + "".join(t.decode("latin-1") for _, t in syntax.RECIPES[name]) + "?>x") for name in recipes if name != "none"]
+            rs = wp.run([{"op": "cmp_tree", "src": base, "ver": ver}] + [{"op": "cmp_tree", "src": v, "ver": ver} for _, v in variants])
+            b = rs[0]
+            if b.get("panic") or b.get("hang") or b.get("crash") or b.get("nerr", 1) > 0:
+                continue
+            for (name, v), r in zip(variants, rs[1:]):
+                check.count()
+                if r.get("panic") or r.get("hang") or r.get("crash"):
+                    continue
+                if r.get("nerr", 1) > 0 or r.get("sfp") != b.get("sfp"):
+                    check.violation({"class": "trivia-makes-program-invalid" if r.get("nerr", 1) > 0 else "trivia-changes-structure", "recipe": name,
+                                     "construct": "semicolon-close-tag", "comment": any(c in v[len("<?php " + body):] for c in ("/*", "//", "#"))},
+                                    {"minimal": base, "rendered": v, "ver": ver, "errors": r.get("errs")})
     check.cov["recipes"] = recipes
     check.cov["traces_validated_against_impl"] = check.cov["evaluations"]
     check.assumptions += ["gaps where PHP permits trivia = all token boundaries of Syntax.tla except those marked glue (string bodies, name separators, short ternary)",
